@@ -1,6 +1,6 @@
 //go:build verif
 
-package eap
+package encr
 
 // Intrinsics recognised by the verifier.  They are executable so that lemma
 // functions double as replay drivers (a failed verifAssert panics with its label;
